@@ -82,7 +82,16 @@ def prop_stop(hist, cfg, m0, s0):
     return None
 
 
-def prop_expect(cfg, faulty, outcomes, m0=0, s0=0):
+def dp_rows(inv, k, dps, gauge=None):
+    rows = []
+    for j in range(1, dps + 1):
+        if gauge != 'JMH':
+            rows.append([inv, j, 'alloc', float(7 * j)])
+        rows.append([inv, j, 'total', float(1000 * k + j)])
+    return rows
+
+
+def prop_expect(cfg, faulty, outcomes, m0=0, s0=0, gauge=None):
     """expected starts [(inv, k)], rows, reason, by the property"""
     hist, starts, rows = [], [], []
     k = 0
@@ -97,9 +106,7 @@ def prop_expect(cfg, faulty, outcomes, m0=0, s0=0):
         c = prop_class(o, faulty, cfg.get('ignore_timeouts', False))
         hist.append((c, o.get('dps', 0)))
         if c == 'ok':
-            for j in range(1, o['dps'] + 1):
-                rows.append([inv, j, 'alloc', float(7 * j)])
-                rows.append([inv, j, 'total', float(1000 * k + j)])
+            rows += dp_rows(inv, k, o['dps'], gauge)
         if k > cfg['N'] + 40:
             reason = 'oracle-runaway'
             break
@@ -139,8 +146,12 @@ def check_cases(ck, cases, faulty, tag):
             # pattern is the bare word FAILED (like the Multivariate / TestExecutor adapters: no leading `.*`)
             if ck.rng.random() < 0.3:
                 lv['custom'] = {'variant': 0}
+            elif ck.rng.random() < 0.2:
+                lv['gauge'] = 'JMH'      # JMH logs: iteration lines, `# Run complete`, a table mentioning Error
             texts = (['benchmark verification FAILED', 'FAILED', 'step 3 FAILED (checksum)', 'xx Error yy']
                      if lv.get('custom') else
+                     ['Error: simulated', 'xx Error yy', 'Segmentation fault (core dumped)', 'x Bus error']
+                     if lv.get('gauge') == 'JMH' else
                      ['Error: simulated', 'xx Error yy', 'the result is incorrect', 'Segmentation fault (core dumped)',
                       'step Failed the verification', 'x Bus error'])
             for o in c['outcomes']:
@@ -153,6 +164,8 @@ def check_cases(ck, cases, faulty, tag):
             ck.count('levels:retries inherited')
         if c['levels'].get('custom'):
             ck.count('gauge:custom adapter')
+        if c['levels'].get('gauge'):
+            ck.count('gauge:' + c['levels']['gauge'])
         for o in c['outcomes']:
             if o.get('marker'):
                 t = o.get('marker_text') or ''
@@ -200,7 +213,13 @@ def one_case(ck, c, faulty, i, obs, ans, tag):
     inp = {'kind': 'run', 'cfg': cfg, 'faulty': faulty, 'outcomes': c['outcomes'], 'levels': c.get('levels') or {},
            'two_experiments': bool(obs.get('two_experiments'))}
     starts, rows, fin = impl_view(obs, i)
-    exp = prop_expect(cfg, faulty, c['outcomes'])
+    gauge = (c.get('levels') or {}).get('gauge')
+    exp = prop_expect(cfg, faulty, c['outcomes'], gauge=gauge)
+    if i in (obs.get('runaway') or []):
+        ck.oracle_fail('starts_bounded', inp, {'starts': len(starts), 'cap': cfg['N'] + 40,
+                                               'note': 'the harness stopped answering after N + 40 starts'},
+                       signature={'gauge': gauge or 'RebenchLog', 'what': 'restarted without bound'})
+        return
     ck.count('stop:' + str(exp['reason']))
     ck.count('starts:%d' % min(len(starts), 12))
     for o in c['outcomes'][:len(starts)]:
@@ -215,9 +234,7 @@ def one_case(ck, c, faulty, i, obs, ans, tag):
         if e[0] == 'start':
             k += 1
         elif e[0] == 'record':
-            for j in range(1, e[2] + 1):
-                m_rows.append([e[1], j, 'alloc', float(7 * j)])
-                m_rows.append([e[1], j, 'total', float(1000 * k + j)])
+            m_rows += dp_rows(e[1], k, e[2], (c.get('levels') or {}).get('gauge'))
     mf = ans['final']
     impl_fin = None if fin is None else {k2: fin[k2] for k2 in ('consec', 'failed', 'failNow', 'maxInv', 'samples', 'exeMissing')}
     model_fin = {k2: mf[k2] for k2 in ('consec', 'failed', 'failNow', 'maxInv', 'samples', 'exeMissing')}
